@@ -99,7 +99,17 @@ var (
 
 	// ErrSignatureEmpty is returned when signature is empty
 	ErrSignatureEmpty = errors.New("signature is empty")
+
+	// ErrSignerKeyAddressMismatch is returned when the signer's address is not the address of the signer's public key
+	ErrSignerKeyAddressMismatch = errors.New("signer address does not match the signer's public key")
 )
+
+// Validate performs basic validation of a signed header, including its signature.
+// It shadows the promoted Header.Validate, which cannot check the signature and which is what
+// go-header calls on every header received over P2P.
+func (sh *SignedHeader) Validate() error {
+	return sh.ValidateBasic()
+}
 
 // ValidateBasic performs basic validation of a signed header.
 func (sh *SignedHeader) ValidateBasic() error {
@@ -114,6 +124,12 @@ func (sh *SignedHeader) ValidateBasic() error {
 	// Check that the proposer address in the signed header matches the proposer address in the validator set
 	if !bytes.Equal(sh.ProposerAddress, sh.Signer.Address) {
 		return ErrProposerAddressMismatch
+	}
+
+	// The signature is verified against the public key carried by the header itself, so that key must
+	// be the one the proposer address was derived from; otherwise anybody could sign under this address.
+	if sh.Signer.PubKey == nil || !bytes.Equal(KeyAddress(sh.Signer.PubKey), sh.Signer.Address) {
+		return ErrSignerKeyAddressMismatch
 	}
 
 	var (
